@@ -3,6 +3,7 @@ import os
 from typing import NamedTuple, Iterator
 
 from trashcli.lib.path_of_backup_copy import path_of_backup_copy
+from trashcli.put.core.failure_reason import FailureReason, LogContext
 from trashcli.put.fs.fs import Fs
 from trashcli.put.jobs import JobStatus, NeedsMoreAttempts, Succeeded, \
     JobExecutor
@@ -24,6 +25,13 @@ class TrashedFile(NamedTuple('TrashedFile', [
     @property
     def backup_copy_path(self):  # type: () -> str
         return path_of_backup_copy(self.trashinfo_path)
+
+
+class UnableToCreateTrashInfo(NamedTuple('UnableToCreateTrashInfo', [
+    ('error', Exception),
+]), FailureReason):
+    def log_entries(self, context):  # type: (LogContext) -> str
+        return "failed to create the .trashinfo file: %s" % (self.error,)
 
 
 class InfoFilePersister:
@@ -65,8 +73,13 @@ class InfoFilePersister:
                 yield Succeeded(TrashedFile(trashinfo_path),
                                 ".trashinfo created as %s." % trashinfo_path)
             except OSError as e:
-                if e.errno == errno.ENAMETOOLONG:
+                if e.errno == errno.ENAMETOOLONG and not name_too_long:
                     name_too_long = True
+                elif e.errno not in (errno.EEXIST, None):
+                    # only a name that is taken (or too long) is worth another
+                    # attempt with a different name; any other error reported
+                    # by the OS would repeat forever
+                    raise
                 yield NeedsMoreAttempts(trashinfo_path,
                                         "attempt for creating %s failed." % trashinfo_path)
 
